@@ -38,6 +38,11 @@ type arScenario struct {
 	errNil bool
 	b58    Val
 	b59    Val
+	// sized: the size column parses to the concrete number size and only have bytes of
+	// the member's data exist in the input (have < size: the archive is cut short inside
+	// the data; have == size: the archive ends right after the data).
+	sized      bool
+	size, have int64
 }
 
 var errType = types.Universe.Lookup("error").Type()
@@ -83,9 +88,13 @@ func interpretNext(p *Prog, sc arScenario) ([]arRun, string) {
 		wrap(n)
 	}
 	numParse := func(fnName string) HookFn {
+		prev := m.Hooks["strconv."+fnName]
 		return func(m *Machine, st *State, call *ssa.CallCommon, args []Val) ([]Val, bool) {
 			o, ok := args[0].(OpaqueV)
 			if !ok {
+				if prev != nil {
+					return prev(m, st, call, args) // a concrete column (sized scenarios)
+				}
 				return nil, false
 			}
 			extra := ""
@@ -93,6 +102,9 @@ func interpretNext(p *Prog, sc arScenario) ([]arRun, string) {
 				extra += "," + fmtVal(a, nil)
 			}
 			sym := fnName + "(" + o.Name + extra + ")"
+			if sc.sized {
+				return []Val{&TupleV{E: []Val{linSym(sym), nilV{}}}}, true // the other columns are numbers
+			}
 			return []Val{
 				&TupleV{E: []Val{linSym(sym), nilV{}}},
 				&TupleV{E: []Val{int64(0), IfaceV{T: errType, V: "syntax error in " + o.Name}}},
@@ -134,6 +146,34 @@ func interpretNext(p *Prog, sc arScenario) ([]arRun, string) {
 			if !ok {
 				return nil, false
 			}
+			if sc.sized {
+				// concrete size: the data occupies [off+60, off+60+have)
+				rel := off.add(LinV{C: 60, T: map[string]int64{"off": 1}}, -1)
+				if !rel.isConst() {
+					return nil, false
+				}
+				n := sc.have - rel.C
+				if n > int64(buf.Len_) {
+					n = int64(buf.Len_)
+				}
+				if n < 0 || rel.C < 0 {
+					n = 0
+				}
+				for i := 0; int64(i) < n; i++ {
+					st.store(Ptr{Obj: buf.Obj, Path: pathAppend(buf.Path, buf.Lo+i)}, OpaqueV{"data"})
+				}
+				if rel.C < 0 {
+					return []Val{&TupleV{E: []Val{int64(buf.Len_), nilV{}}}}, true // re-reads the header
+				}
+				if n == int64(buf.Len_) {
+					// io.ReaderAt: a full read that ends exactly at the end of the input may report nil or io.EOF
+					if rel.C+n == sc.have {
+						return []Val{&TupleV{E: []Val{n, nilV{}}}, &TupleV{E: []Val{n, IfaceV{T: errType, V: "EOF"}}}}, true
+					}
+					return []Val{&TupleV{E: []Val{n, nilV{}}}}, true
+				}
+				return []Val{&TupleV{E: []Val{n, IfaceV{T: errType, V: "EOF"}}}}, true
+			}
 			var size LinV
 			found := false
 			for k := range off.T {
@@ -167,6 +207,9 @@ func interpretNext(p *Prog, sc arScenario) ([]arRun, string) {
 				}
 				if i == 59 && sc.b59 != nil {
 					v = sc.b59
+				}
+				if sc.sized && i >= 48 && i < 58 {
+					v = int64(fmt.Sprintf("%-10d", sc.size)[i-48])
 				}
 				st.store(Ptr{Obj: buf.Obj, Path: pathAppend(buf.Path, buf.Lo+i)}, v)
 			}
@@ -281,7 +324,7 @@ var arNumeric = map[string][2]int{"Timestamp": {16, 28}, "OwnerID": {28, 34}, "G
 
 func checkC13(p *Prog, rp *Report) {
 	rp.Explanation = "The ar reader is interpreted abstractly on a symbolic member header (bytes = opaque tokens hdr[i], parsed numbers = symbols, offsets = linear terms): C13-COLS each entry field derives from exactly the ar(5) columns (name 0-16, mtime 16-28, uid 28-34, gid 34-40, mode 40-48, size 48-58) and numeric columns are parsed base 10 / 64 bit, blank = 0; C13-NAME blanks trimmed then one trailing '/' removed; C13-OFFSET the member reader is NewSectionReader(archive, off+60, size) and the next offset is off+60+size+size%2; C13-FRESH one new section reader per Next and the iterator keeps no reference to it; C13-MAGIC the global header is the 8 bytes \"!<arch>\\n\" read at offset 0 and iteration starts at 8; C13-EOF/C13-SHORT a failed or short header read ends the iteration with an error (io.EOF at the end)."
-	rp.NotDecided = "that the bytes a member's reader delivers equal the member's bytes (contract of io.SectionReader / the caller's io.ReaderAt); archives whose recorded size runs past the end of the file."
+	rp.NotDecided = "that the bytes a member's reader delivers equal the member's bytes (contract of io.SectionReader / the caller's io.ReaderAt). Archives cut short inside a member are not well formed; C15-TRUNC covers them."
 	rp.Trusted = []string{"go/types, go/ssa", "ar(5) header layout", "contracts of io.ReaderAt, io.NewSectionReader, strings.TrimSpace/TrimSuffix, strconv.ParseInt"}
 	arRules(p, rp, true)
 }
@@ -492,6 +535,38 @@ func arRules(p *Prog, rp *Report, c13 bool) {
 	}
 	if c13 {
 		c13Global(p, rp)
+	} else {
+		tr := rp.Rule("C15-TRUNC", "a member whose recorded size runs past the end of the input is not returned (its reader would deliver fewer bytes than Size)", 1)
+		var problems []string
+		undec := ""
+		n := 0
+		for _, c := range []struct{ size, have int64 }{{1, 0}, {2, 1}, {7, 0}, {7, 3}, {7, 6}, {100000, 99999}, {4294967297, 5}, {0, 0}, {1, 1}, {7, 7}, {8, 8}} {
+			rs, why := interpretNext(p, arScenario{count: 60, errNil: true, b58: int64(0x60), b59: int64(0x0A), sized: true, size: c.size, have: c.have})
+			if why != "" {
+				undec = why
+				break
+			}
+			n++
+			member, refused := false, false
+			for _, r := range rs {
+				if r.err == "" {
+					member = true
+				} else {
+					refused = true
+				}
+			}
+			switch {
+			case c.have < c.size && member:
+				problems = append(problems, fmt.Sprintf("a header recording %d bytes followed by only %d bytes of data still yields a member: its reader delivers %d bytes, not %d", c.size, c.have, c.have, c.size))
+			case c.have == c.size && refused:
+				problems = append(problems, fmt.Sprintf("a complete member of %d bytes at the very end of the input is refused (whichever way the ReaderAt reports the end)", c.size))
+			}
+		}
+		if undec != "" {
+			tr.undecided("deb.Ar.Next", pos, undec)
+		} else {
+			fillProblems(tr, "deb.Ar.Next", pos, problems, fmt.Sprintf("%d size/data combinations (1 to 2^32+1 recorded bytes with fewer present: no member; complete members ending the input: returned whether the final read reports nil or io.EOF)", n))
+		}
 	}
 	// cross-check on concrete archives (always run; the fallback when the symbolic model does not apply)
 	fam := rp.Rule(prefix+"-FAMILY", "LoadAr / Next agree with an ar(5) reference reader on a family of concrete archives", 1)
@@ -501,6 +576,9 @@ func arRules(p *Prog, rp *Report, c13 bool) {
 		var all []string
 		for _, k := range []string{"COLS", "OFFSET", "HDRMAGIC", "MAGIC", "SHORT", "LAST"} {
 			all = append(all, b.problems[k]...)
+		}
+		if !c13 {
+			all = append(all, b.problems["TRUNC"]...)
 		}
 		fillProblems(fam, "deb.Ar.Next", pos, all, fmt.Sprintf("%d archives (well-formed with 1 to 3 members, column variants, header and global magic, truncation): members, data offsets and the end of the iteration equal the reference", b.nArchives))
 	}
@@ -613,4 +691,7 @@ func arRulesBounded(p *Prog, rp *Report, c13 bool, pos, why string) {
 	fillProblems(rp.Rule(prefix+"-OFFSET", "member data = NewSectionReader(archive, off+60, size); next offset = off+60+size+size%2; at least 60 bytes of progress per member", 1), "deb.Ar.Next", pos, append(append([]string(nil), b.problems["OFFSET"]...), b.problems["COLS"]...), note+"data offsets and the following members (sizes 0, 1, 4, 5: padding after odd sizes) equal the reference; negative sizes are rejected")
 	fillProblems(rp.Rule(prefix+"-HDRMAGIC", "a member is returned only from a header ending in 0x60 0x0A", 1), "deb.Ar.Next", pos, b.problems["HDRMAGIC"], note+"5 wrong header endings end the iteration with an error")
 	fillProblems(rp.Rule(prefix+"-SHORT", "a failed or short header read never yields a member", 1), "deb.Ar.Next", pos, b.problems["SHORT"], note+"archives cut inside a header yield no further member; the clean end gives io.EOF")
+	if !c13 {
+		fillProblems(rp.Rule("C15-TRUNC", "a member whose recorded size runs past the end of the input is not returned (its reader would deliver fewer bytes than Size)", 1), "deb.Ar.Next", pos, b.problems["TRUNC"], note+"archives cut inside the data of the last member, or recording 9999999999 bytes, yield no such member")
+	}
 }
